@@ -1,6 +1,7 @@
 # C20 UDP netcode transport keeps message and handshake layers in lock-step — glue structure only
 import re
 from sa.rules import *
+import rules.wave3 as W3
 
 def rules(t):
     out = []
@@ -104,4 +105,12 @@ def rules(t):
     out.append(r)
     import rules.shared as shared
     out.append(shared.slots_match_limit(t, "C20.f"))
+    rr_ = RuleResult("C20.g", "one netcode session per client id: the slot fill is behind the already-connected test on the id (shared with C10.a1 / C05.c3)", floor=1)
+    import rules.C10 as _SRC
+    for x_ in _SRC.rules(t):
+        if x_.id == "C10.a1":
+            rr_.sites += x_.sites
+            for v_ in x_.violations: rr_.bad(v_.key, v_.site, v_.msg)
+    out.append(rr_)
+    out.append(W3.client_state_machine(t, "C20.h", "connected"))
     return out
